@@ -3,6 +3,8 @@ Proof: lean/DynasmVerif/Props/C12.lean (value_moves_with_buffer, adjust_tracks_m
 Tie: `asm` stream on Assembler<X86Relocation> on this 64-bit host: 8-byte AbsToRel / RelToAbs fields and 4-byte RelToAbs fields to extern
 targets near the mapping (`@N` = buffer address + N), commits forced across 1x,2x,4x capacity, alter sessions overwriting none/some/all
 tracked fields; decoded targets are read through reader().lock() after every move."""
+import os
+
 import asmcheck
 import asmgen
 import asmprops
@@ -264,7 +266,17 @@ def check(run):
     run.coverage["rule"] = ("histories on Assembler<X86Relocation>: 8-byte AbsToRel fields to local/global/dynamic labels, 8-byte and 4-byte RelToAbs fields to extern targets, plain relative "
                             "references, 2-5 rounds each ending in a commit (2 of 3 with a filler that crosses a capacity boundary and moves the mapping), alter sessions that overwrite "
                             "none/some/all tracked fields or add a new tracked field. non-trivial = history with >= 1 move while >= 1 field is tracked")
-    ok, proofs_ok = asmprops.proof_and_build(run, MODULES, allow_bv=True)
+    # second tie: the text of `impl PatchLoc` (value / range / adjust / needs_adjustment) translated to Lean on every run and proved equal to the
+    # model's functions in Props/C12Code.lean
+    import patchtrans
+    modules, trans_msg = list(MODULES), None
+    try:
+        patchtrans.emit_lean(patchtrans.translate(), os.path.join(common.LEAN, "DynasmVerif", "Generated", "PatchCode.lean"))
+        modules.append("DynasmVerif.Props.C12Code")
+        run.coverage["trusted_base"] += ["lib/patchtrans.py + lib/rustexpr.py (text of impl PatchLoc -> bit-vector IR -> Lean)"]
+    except patchtrans.Untranslatable as ex:
+        trans_msg = f"`impl PatchLoc` in runtime/src/components.rs can no longer be translated (lib/patchtrans.py): {ex}"
+    ok, proofs_ok = asmprops.proof_and_build(run, modules, allow_bv=True)
     if not ok:
         return
     found_before = len(run.violations) + len(run.known_hit)
@@ -287,6 +299,8 @@ def check(run):
     run.coverage["traces_validated_against_impl"] = stats["requests"]
     run.coverage["distribution"] = stats
     run.coverage["samples"] = [[l[:60] for l in progs[0][:40]]]
+    if trans_msg:
+        run.violation("broken-correspondence", {"kind": "patchloc-translation"}, trans_msg, found_input=(len(run.violations) + len(run.known_hit)) > found_before)
     asmprops.finish_proofs(run, proofs_ok, found_before)
 
 
